@@ -4,22 +4,12 @@ return True only for the specific class the finding describes, so that any other
 property is still reported."""
 
 
-def c07_threshold_multi_epoch(rec, fctx):
-    """Tsd.threshold on a time support with >= 2 intervals: jitthreshold tracks the current epoch wrongly
-    (leading scan compares with starts, one epoch step per transition, last sample not epoch-aware).
-    Recognised only when the implementation still agrees with the pinned model of the kernel."""
-    return bool(fctx and fctx.get("op") == "threshold" and fctx.get("n_support_intervals", 0) >= 2
-                and fctx.get("n", 0) >= 2 and fctx.get("impl_equals_model", False))
-
-
-def c07_threshold_single_sample(rec, fctx):
-    """Tsd.threshold on a series with exactly one sample: the tail of jitthreshold reads time_array[1]."""
-    return bool(fctx and fctx.get("op") == "threshold" and fctx.get("n", 0) == 1)
-
-
-def c15_threshold_unguarded_reads(rec, fctx):
-    """jitthreshold with n <= 1 (reads time_array[1] / time_array[0] of an empty series)."""
-    return bool(fctx and fctx.get("kernel") == "jitthreshold" and fctx.get("n", 2) <= 1)
+def c07_threshold_lone_sample(rec, fctx):
+    """Tsd.threshold where a KEPT sample is the only sample of its support interval (n == 1 included): the kernel gives it
+    start == end == its own time and the IntervalSet constructor drops zero-length intervals, so the sample is lost.
+    Recognised only then, and only when the implementation still agrees with the pinned model of the kernel."""
+    return bool(fctx and fctx.get("op") == "threshold" and fctx.get("lone_kept", False)
+                and fctx.get("impl_equals_model", False))
 
 
 def c11_empty_series_with_support(rec, fctx):
